@@ -203,10 +203,13 @@ def _mk_cls(layout, base):
   """layout bits: field i is a pytree node iff bit i set (3 fields)"""
   ann = {}
   ns = {}
+  shared_meta = {'doc': 'shared by every field'}    # one dict reused by all calls
   for i in range(3):
     ann['f%d' % i] = int
     if not (layout >> i) & 1:
-      ns['f%d' % i] = struct.field(pytree_node=False)
+      ns['f%d' % i] = struct.field(pytree_node=False, metadata=shared_meta)
+    elif base:
+      ns['f%d' % i] = struct.field(pytree_node=True, metadata=shared_meta)
   ns['__annotations__'] = ann
   if base:
     return type('S', (struct.PyTreeNode,), ns)
